@@ -117,3 +117,120 @@ pub fn eq64(a: f64, b: f64) -> bool {
 pub fn eq32(a: f32, b: f32) -> bool {
     a.to_bits() == b.to_bits() || (a.is_nan() && b.is_nan())
 }
+
+/// Uninterpreted-function stubs for libm: a memo table makes every stub a true function of its
+/// argument bits (same argument => same result), otherwise arbitrary. IEEE facts that hold exactly
+/// for every conforming libm at the special points the harnesses visit are built in
+/// (sin(+-0) = +-0, cos(0) = 1, exp(0) = 1, exp_m1(0) = 0, ln_1p(0) = 0, atan(0) = 0, ...).
+#[cfg(kani)]
+pub mod uf {
+    const CAP: usize = 6;
+    static mut KEYS: [(u8, u64, u64); CAP] = [(0, 0, 0); CAP];
+    static mut VALS: [u64; CAP] = [0; CAP];
+    static mut N: usize = 0;
+
+    pub fn call2(id: u8, a: u64, b: u64) -> u64 {
+        unsafe {
+            let mut i = 0;
+            while i < N {
+                if KEYS[i].0 == id && KEYS[i].1 == a && KEYS[i].2 == b {
+                    return VALS[i];
+                }
+                i += 1;
+            }
+            assert!(N < CAP, "UF memo table overflow");
+            let r: u64 = kani::any();
+            KEYS[N] = (id, a, b);
+            VALS[N] = r;
+            N += 1;
+            r
+        }
+    }
+    fn c64(id: u8, x: f64) -> f64 {
+        f64::from_bits(call2(id, x.to_bits(), 0))
+    }
+    fn c32(id: u8, x: f32) -> f32 {
+        f32::from_bits(call2(id, x.to_bits() as u64, 1) as u32)
+    }
+    macro_rules! uf64 {
+        ($($name:ident = $id:expr, $at0:expr);* $(;)?) => { $(
+            pub fn $name(x: f64) -> f64 {
+                let at0: Option<f64> = $at0;
+                if x == 0.0 { if let Some(v) = at0 { return if v == 0.0 { x } else { v }; } }
+                c64($id, x)
+            }
+        )* };
+    }
+    uf64! {
+        sin = 1, Some(0.0); cos = 2, Some(1.0); tan = 3, Some(0.0); asin = 4, Some(0.0);
+        acos = 5, None; atan = 6, Some(0.0); sinh = 7, Some(0.0); cosh = 8, Some(1.0);
+        tanh = 9, Some(0.0); asinh = 10, Some(0.0); acosh = 11, None; atanh = 12, Some(0.0);
+        exp = 13, Some(1.0); exp2 = 14, Some(1.0); exp_m1 = 15, Some(0.0); ln = 16, None;
+        log2 = 17, None; log10 = 18, None; ln_1p = 19, Some(0.0); cbrt = 20, Some(0.0);
+    }
+    pub fn sin_cos(x: f64) -> (f64, f64) {
+        (sin(x), cos(x))
+    }
+    pub fn log(x: f64, b: f64) -> f64 {
+        f64::from_bits(call2(21, x.to_bits(), b.to_bits()))
+    }
+    pub fn atan2(y: f64, x: f64) -> f64 {
+        f64::from_bits(call2(22, y.to_bits(), x.to_bits()))
+    }
+    /// powf with the IEEE special cases at a zero base and a zero exponent
+    pub fn powf(x: f64, p: f64) -> f64 {
+        if p == 0.0 {
+            return 1.0;
+        }
+        if x == 0.0 && !p.is_nan() {
+            return if p > 0.0 { 0.0 } else { f64::INFINITY };
+        }
+        if x == 1.0 {
+            return 1.0;
+        }
+        f64::from_bits(call2(23, x.to_bits(), p.to_bits()))
+    }
+    /// powi with exact special cases: x^0 = 1, 1^n = 1, (+0)^n
+    pub fn powi(x: f64, n: i32) -> f64 {
+        if n == 0 || x == 1.0 {
+            return 1.0;
+        }
+        if n == 1 {
+            return x;
+        }
+        if x == 0.0 {
+            if n > 0 {
+                return if n % 2 == 1 { x } else { 0.0 };
+            }
+            return if n % 2 != 0 { 1.0 / x } else { f64::INFINITY };
+        }
+        f64::from_bits(call2(24, x.to_bits(), n as u64))
+    }
+    pub fn sin32(x: f32) -> f32 {
+        c32(31, x)
+    }
+    pub fn cos32(x: f32) -> f32 {
+        c32(32, x)
+    }
+    pub fn exp32(x: f32) -> f32 {
+        c32(33, x)
+    }
+    pub fn ln32(x: f32) -> f32 {
+        c32(34, x)
+    }
+    pub fn tanh32(x: f32) -> f32 {
+        c32(35, x)
+    }
+}
+
+#[cfg(not(kani))]
+pub mod uf {
+    //! native replay uses the real libm
+    pub fn sin(x: f64) -> f64 { x.sin() }
+    pub fn cos(x: f64) -> f64 { x.cos() }
+    pub fn exp(x: f64) -> f64 { x.exp() }
+    pub fn ln(x: f64) -> f64 { x.ln() }
+    pub fn atan(x: f64) -> f64 { x.atan() }
+    pub fn powf(x: f64, p: f64) -> f64 { x.powf(p) }
+    pub fn powi(x: f64, n: i32) -> f64 { x.powi(n) }
+}
